@@ -60,11 +60,24 @@ func init() {
 	register("inew", func(t *tokens) string {
 		return fmtIntervals(interval.NewMap(t.intervals()...))
 	})
+	// The operands are printed before and after the operation, and the result
+	// is printed again after a second operation on the same operands: an
+	// operation must neither change its operands nor a result handed out
+	// earlier ("!!operand-mutated" / "!!result-mutated").
 	binary := func(f func(a, b interval.Map[int64]) interval.Map[int64]) opFunc {
 		return func(t *tokens) string {
 			a := interval.NewMap(t.intervals()...)
 			b := interval.NewMap(t.intervals()...)
-			return fmtIntervals(f(a, b))
+			sa, sb := fmtIntervals(a), fmtIntervals(b)
+			res := f(a, b)
+			out := fmtIntervals(res)
+			if fmtIntervals(a) != sa || fmtIntervals(b) != sb {
+				return out + " !!operand-mutated"
+			}
+			if again := fmtIntervals(f(a, b)); again != out || fmtIntervals(res) != out {
+				return out + " !!result-mutated"
+			}
+			return out
 		}
 	}
 	register("iunion", binary(interval.MapUnion[int64]))
@@ -79,7 +92,16 @@ func init() {
 		return func(t *tokens) string {
 			a := interval.NewMap(t.intervalsU()...)
 			b := interval.NewMap(t.intervalsU()...)
-			return fmtIntervals(f(a, b))
+			sa, sb := fmtIntervals(a), fmtIntervals(b)
+			res := f(a, b)
+			out := fmtIntervals(res)
+			if fmtIntervals(a) != sa || fmtIntervals(b) != sb {
+				return out + " !!operand-mutated"
+			}
+			if again := fmtIntervals(f(a, b)); again != out || fmtIntervals(res) != out {
+				return out + " !!result-mutated"
+			}
+			return out
 		}
 	}
 	register("iunionu", binaryU(interval.MapUnion[uint64]))
